@@ -206,6 +206,178 @@ fn tx_forwarder_serialize_contract() {
 	}
 }
 
+// ---- induction over nesting depth, machine-checked ------------------------------------------------------
+// V-contract of a subtree, observed where the real code observes it (the result of `de.deserialize_any(&mut visitor)`
+// plus the visitor's State), given that nobody had failed when the subtree was entered:
+//   Ok            => nobody failed; the serializer received exactly the events the deserializer produced
+//   Err(e), state.source == De  => the deserializer failed first and `e` is its OWN error (state.error: anything)
+//   Err(_), state.source == Ser => a serializer failed first and state.error holds its OWN error (`e`: anything)
+// `AbsDe` is an ABSTRACT subtree: it exhibits every behaviour the V-contract allows and nothing else, by acting
+// directly on the visitor it is handed (the harness module can see Visitor/State).  `StepDe` is a real collection
+// event (sequence <= 2 elements / map <= 1 entry) whose children, in element, key and value position, are
+// abstract subtrees.  `tx_depth_induction_step` proves: children satisfy V  ==>  the collection satisfies V,
+// with the REAL visit_seq / visit_map / seeds / Forwarder in between and adversarial serializer steps.
+// Base case: scalars satisfy V (`tx_depth_induction_base`).  Together: V holds for documents of EVERY depth;
+// `tx_transcode_maps_v_contract_to_error` shows that transcode() turns V into the C11 attribution.
+const E_ABS: u8 = 20;
+static mut ABS_ENTERED_AFTER_FAILURE: bool = false;
+struct AbsDe;
+impl<'de> Deserializer<'de> for AbsDe {
+	type Error = DeErr;
+	fn deserialize_any<V: DeVisitor<'de>>(self, v: V) -> Result<V::Value, DeErr> {
+		// in these harnesses the visitor is always xt's `&mut Visitor<MockSer>` (built by Forwarder::serialize / the harness)
+		assert!(std::mem::size_of::<V>() == std::mem::size_of::<&mut Visitor<MockSer>>());
+		assert!(std::mem::size_of::<V::Value>() == 0);
+		let vis: &mut Visitor<MockSer> = unsafe { std::mem::transmute_copy(&v) };
+		std::mem::forget(v);
+		if first() != 0 { unsafe { ABS_ENTERED_AFTER_FAILURE = true; } }
+		let k: u8 = kani::any();
+		kani::assume(k < 3);
+		match k {
+			0 => {
+				// the subtree translated completely: serializer consumed, equal event runs on both sides
+				let _ = vis.0.take_parent();
+				let tok: u64 = kani::any();
+				de_log(E_ABS, tok); ser_log(E_ABS, tok);
+				Ok(unsafe { std::mem::transmute_copy(&()) })
+			}
+			1 => {
+				// the deserializer failed on its own somewhere inside: source stays De; the serializer may or may not
+				// have been consumed; a synthetic serializer error may have been left behind on the way up
+				if kani::any() { let _ = vis.0.take_parent(); }
+				if kani::any() { vis.0.error.set(Some(SerErr { synthetic: true, id: 0 })); }
+				if kani::any() { de_log(E_ABS, kani::any()); }
+				Err(de_fail())
+			}
+			_ => {
+				// a serializer failed on its own somewhere inside: (Ser, its own error); the deserializer error that
+				// travels up is arbitrary (synthetic, or re-wrapped by the deserializer)
+				if kani::any() { let _ = vis.0.take_parent(); }
+				if kani::any() { de_log(E_ABS, kani::any()); }
+				let s = ser_fail();
+				vis.0.capture_error(ErrorSource::Ser, s);
+				Err(DeErr { synthetic: kani::any(), id: kani::any() })
+			}
+		}
+	}
+	forward_to_deserialize_any! {
+		bool i8 i16 i32 i64 i128 u8 u16 u32 u64 u128 f32 f64 char str string
+		bytes byte_buf option unit unit_struct newtype_struct seq tuple
+		tuple_struct map struct enum identifier ignored_any
+	}
+}
+struct StepSeq { remaining: u8 }
+impl<'de> de::SeqAccess<'de> for StepSeq {
+	type Error = DeErr;
+	fn next_element_seed<T: DeserializeSeed<'de>>(&mut self, seed: T) -> Result<Option<T::Value>, DeErr> {
+		if kani::any() { return Err(de_fail()); }
+		if self.remaining == 0 { de_log(E_SEQ_END, 0); return Ok(None); }
+		self.remaining -= 1;
+		de_log(E_ELEM, 0);
+		seed.deserialize(AbsDe).map(Some)
+	}
+	fn size_hint(&self) -> Option<usize> { Some(self.remaining as usize) }
+}
+struct StepMap { remaining: u8 }
+impl<'de> de::MapAccess<'de> for StepMap {
+	type Error = DeErr;
+	fn next_key_seed<K: DeserializeSeed<'de>>(&mut self, seed: K) -> Result<Option<K::Value>, DeErr> {
+		if kani::any() { return Err(de_fail()); }
+		if self.remaining == 0 { de_log(E_MAP_END, 0); return Ok(None); }
+		self.remaining -= 1;
+		de_log(E_KEY, 0);
+		seed.deserialize(AbsDe).map(Some)
+	}
+	fn next_value_seed<V: DeserializeSeed<'de>>(&mut self, seed: V) -> Result<V::Value, DeErr> {
+		if kani::any() { return Err(de_fail()); }
+		de_log(E_VAL, 0);
+		seed.deserialize(AbsDe)
+	}
+	fn size_hint(&self) -> Option<usize> { Some(self.remaining as usize) }
+}
+struct StepDe { map: bool }
+impl<'de> Deserializer<'de> for StepDe {
+	type Error = DeErr;
+	fn deserialize_any<V: DeVisitor<'de>>(self, v: V) -> Result<V::Value, DeErr> {
+		if self.map {
+			let n: u8 = kani::any(); kani::assume(n < 2);
+			de_log(E_MAP, n as u64);
+			v.visit_map(StepMap { remaining: n })
+		} else {
+			let n: u8 = kani::any(); kani::assume(n < 3);
+			de_log(E_SEQ, n as u64);
+			v.visit_seq(StepSeq { remaining: n })
+		}
+	}
+	forward_to_deserialize_any! {
+		bool i8 i16 i32 i64 i128 u8 u16 u32 u64 u128 f32 f64 char str string
+		bytes byte_buf option unit unit_struct newtype_struct seq tuple
+		tuple_struct map struct enum identifier ignored_any
+	}
+}
+
+/// The V-contract, checked on (result, visitor state).
+fn check_v_contract(r: Result<(), DeErr>, vis: Visitor<MockSer>) {
+	unsafe { assert!(!ABS_ENTERED_AFTER_FAILURE, "a subtree was entered after a failure"); }
+	unsafe { assert!(SER_POS <= DE_POS); }
+	let src = src_code(vis.0.error_source());
+	let cap = vis.0.into_error();
+	match r {
+		Ok(()) => {
+			assert!(first() == 0, "Ok although one side failed");
+			unsafe { assert!(SER_POS == DE_POS, "every event reached the serializer"); }
+			kani::cover!(unsafe { DE_POS } >= 4, "collection with abstract children translated");
+		}
+		Err(e) => {
+			assert!(first() != 0, "Err although nobody failed");
+			assert!(src == first(), "the state blames the side that did not fail first");
+			if first() == 1 {
+				assert!(!e.synthetic && e.id == unsafe { FIRST_ID }, "the deserializer's own error must travel up");
+				kani::cover!(unsafe { DE_POS } >= 2, "deserializer failure below a collection");
+			} else {
+				match cap {
+					Some(c) => assert!(!c.synthetic && c.id == unsafe { FIRST_ID }, "the serializer's own error must be the captured one"),
+					None => assert!(false, "serializer error lost"),
+				}
+				kani::cover!(unsafe { SER_POS } >= 1, "serializer failure below a collection");
+			}
+		}
+	}
+}
+
+/// Inductive step: a sequence / map whose children are arbitrary V-satisfying subtrees satisfies V.
+#[kani::proof]
+#[kani::unwind(4)]
+fn tx_depth_induction_step() {
+	let mut visitor = Visitor::new(MockSer);
+	let r = StepDe { map: kani::any() }.deserialize_any(&mut visitor);
+	check_v_contract(r, visitor);
+}
+
+/// Base case: every scalar leaf (value or deserializer failure, serializer accepting or failing) satisfies V.
+#[kani::proof]
+#[kani::unwind(2)]
+fn tx_depth_induction_base() {
+	let mut visitor = Visitor::new(MockSer);
+	let r = MockDe { depth: 0 }.deserialize_any(&mut visitor);
+	check_v_contract(r, visitor);
+}
+
+/// transcode() maps V to the attribution C11 asks for: with an abstract V-satisfying document at top level,
+/// De => Error::De(own deserializer error), Ser => Error::Ser(own serializer error), Ok => nobody failed.
+#[kani::proof]
+#[kani::unwind(2)]
+fn tx_transcode_maps_v_contract_to_error() {
+	let r = transcode(MockSer, AbsDe);
+	unsafe { assert!(!ABS_ENTERED_AFTER_FAILURE); }
+	match r {
+		Ok(()) => assert!(first() == 0),
+		Err(Error::De(e)) => { assert!(first() == 1, "deserializer blamed although the serializer failed first"); assert!(!e.synthetic && e.id == unsafe { FIRST_ID }); }
+		Err(Error::Ser(s, _)) => { assert!(first() == 2, "serializer blamed although the deserializer failed first"); assert!(!s.synthetic && s.id == unsafe { FIRST_ID }); }
+	}
+	kani::cover!(first() == 1); kani::cover!(first() == 2); kani::cover!(first() == 0);
+}
+
 // ---- end to end into the REAL serde_json serializer, for documents of concrete shape ------------------
 // (serde_json writes literals through write_all, which CBMC handles when the document shape is concrete)
 
